@@ -1334,6 +1334,11 @@ class Interp:
             if isinstance(o, Obj):
                 o.fields[name] = v
                 self.events.append(("setattr", o, name, tgt))
+            elif isinstance(o, ClassRef) and o.ci.find_attr(name)[0] is o.ci:
+                # rebinding a class attribute in its own class (`__class__.__latest = ...`): the class object lives as long as
+                # the interpreter instance (= the process), later reads see the new value
+                self._class_attr_cache[(o.ci.qualname, name)] = v
+                self.events.append(("setattr", o, name, tgt))
             else:
                 raise Incomplete(f"attribute store on {o!r}")
         elif t is ast.Subscript:
